@@ -36,7 +36,7 @@ ANCHORS = ['penman.codec:_load', 'penman.codec:_loads', 'penman.codec:_dump', 'p
 PROBES = {'C17': 10, 'C04': 10, 'C08': 10, 'C07': 10}
 MIN_EVAL = {'quick': 3000, 'thorough': 60000}     # decode events
 REQUIRED_COUNTERS = ['events', 'container:file', 'container:filehandle', 'container:lines',
-                     'exotic_separator_in_metadata', 'nl:CR', 'nl:mixed']
+                     'exotic_separator_in_metadata', 'nl:CR', 'nl:mixed', 'long_streams']
 EXOTIC = ('\x0b', '\x0c', '\x1c', '\x1d', '\x1e', '\x85', '\u2028', '\u2029')
 
 
@@ -60,10 +60,13 @@ def oracle(ctx, kind, p):
     mname = 'amr' if p['i'] % 4 == 3 else 'default'
     _, model, rm, _ = M.get(mname)
     k = rng.randrange(0, 5)
+    if p['i'] % 25 == 24:
+        k = rng.choice([33, 65, 130])     # long streams (buffer / block boundaries)
+        ctx.count('long_streams')
     gs = []
     exotic = False
     for _ in range(k):
-        node = T.rand_tree(rng, rm)
+        node = T.rand_tree(rng, rm, n_nodes=rng.choice([1, 2]) if k > 10 else None)
         if not _trees.wellformed(node, rm):
             continue
         meta = rand_meta(rng)
